@@ -1,76 +1,87 @@
 (* C18 - Backward chaining returns only entailed answers, and all shallow ones.
    This file contains only the property theorems; each is closed by `exact <lemma>` (or a vm_compute witness)
    and followed by Print Assumptions.  The lemmas live in NameProofs, SubstProofs, RenameProofs, SearchProofs,
-   CompleteProofs, GroundProofs, SpecProofs.
+   GroundProofs, SoundProofs, CompleteProofs, ExactProofs, SpecProofs.
 
    Vocabulary (Model.v / Spec.v):
-     backward_chaining F R q   the binding maps returned by the model of Reasoner::backward_chaining
+     backward_chaining num F R q  the binding maps returned by the model of Reasoner::backward_chaining
+                               (num c = numeric value of the dictionary entry c, used by filters)
      apply_answer th q         the goal with resolve_term applied to its three positions (the observable)
      eval_atom nu a            the ground instance of a under the valuation nu of ALL variable names
      derivable num F R h f     f has a derivation of height <= h (height 0: a stored fact)
      least_model num F R f     f has a derivation
-     known_C18 R               some rule carries a filter (class of the open finding C18-filters-ignored)
+     safe_rules R              every conclusion variable and every filter variable of a rule occurs in a premise
+     known_C18 R               some rule carries a filter
    Goal variable names are arbitrary strings, including the names v<n> that the engine generates. *)
 Require Import List NArith ZArith String Bool.
 Require Import KV.Backward.Model KV.Backward.Spec KV.Backward.NameProofs KV.Backward.SubstProofs
-        KV.Backward.SearchProofs KV.Backward.CompleteProofs KV.Backward.GroundProofs KV.Backward.SpecProofs.
+        KV.Backward.SearchProofs KV.Backward.GroundProofs KV.Backward.SoundProofs KV.Backward.CompleteProofs
+        KV.Backward.ExactProofs KV.Backward.SpecProofs.
 Import ListNotations.
 
-(* (1) Soundness.  For every fact set, every rule set without filters (safe or not), every goal - whatever its
-   variables are called - and every returned binding map: every ground instance of the answer is a fact of
-   the least model.  (C18_answers_ground below: for safe rules the answer has exactly one instance.) *)
+(* (1) Soundness.  For every fact set, every SAFE rule set (every conclusion variable and every filter variable
+   occurs in a premise) - filters allowed, evaluated as rules.rs evaluate_filters does on ground instances - every
+   goal, whatever its variables are called, and every returned binding map: every ground instance of the answer
+   is a fact of the least model.  (C18_answers_ground: the answer has exactly one instance.) *)
 Theorem C18_sound :
   forall (num : N -> Z) (F : list fact) (R : list rule) (q : atom) (th : subst),
-    known_C18 R = false ->
-    In th (backward_chaining F R q) ->
+    safe_rules R = true ->
+    In th (backward_chaining num F R q) ->
     forall nu : valuation, least_model num F R (eval_atom nu (apply_answer th q)).
 Proof. exact sound. Qed.
 Print Assumptions C18_sound.
 
-(* Inside the class of the finding the strongest true statement: answers are sound for the program with its
-   filters erased (the search never looks at filters). *)
-Theorem C18_sound_erased :
+(* The same for rule sets without filters, safe or not. *)
+Theorem C18_sound_unfiltered :
   forall (num : N -> Z) (F : list fact) (R : list rule) (q : atom) (th : subst),
-    In th (backward_chaining F R q) ->
-    forall nu : valuation, least_model num F (erase R) (eval_atom nu (apply_answer th q)).
-Proof. exact sound_erased. Qed.
-Print Assumptions C18_sound_erased.
+    known_C18 R = false ->
+    In th (backward_chaining num F R q) ->
+    forall nu : valuation, least_model num F R (eval_atom nu (apply_answer th q)).
+Proof. exact sound_unfiltered. Qed.
+Print Assumptions C18_sound_unfiltered.
 
-(* (3) Shallow completeness, for ALL rule sets (filters only shrink the least model) and all goal variable
-   names.  The bound the code gives: the helper runs at depths 0..MAX_DEPTH (depth > MAX_DEPTH returns nothing)
-   and a goal at depth d is answered from facts (height 0) or from a rule whose premises are solved at depth
-   d+1; so exactly the derivations of height <= MAX_DEPTH = 10 are covered (at most 10 rule applications on
-   any branch; a stored fact has height 0). *)
+(* (3) Shallow completeness, safe rule sets with filters, all goal variable names.  The bound the code gives: the
+   helper runs at depths 0..MAX_DEPTH (depth > MAX_DEPTH returns nothing) and a goal at depth d is answered from
+   facts (height 0) or from a rule whose premises are solved at depth d+1; so exactly the derivations of height
+   <= MAX_DEPTH = 10 are covered (at most 10 rule applications on any branch; a stored fact has height 0). *)
 Theorem C18_complete_shallow :
   forall (num : N -> Z) (F : list fact) (R : list rule) (q : atom) (nu : valuation),
+    safe_rules R = true ->
     derivable num F R MAX_DEPTH (eval_atom nu q) ->
-    exists th, In th (backward_chaining F R q) /\
+    exists th, In th (backward_chaining num F R q) /\
                exists nu', eval_atom nu' (apply_answer th q) = eval_atom nu q.
 Proof. exact complete_shallow. Qed.
 Print Assumptions C18_complete_shallow.
 
-(* For safe rule sets (every conclusion variable occurs in a premise) every answer is ground: the goal with
-   resolve_term applied is a fact, so "every ground instance" above is "the answer itself". *)
+Theorem C18_complete_shallow_unfiltered :
+  forall (num : N -> Z) (F : list fact) (R : list rule) (q : atom) (nu : valuation),
+    known_C18 R = false ->
+    derivable num F R MAX_DEPTH (eval_atom nu q) ->
+    exists th, In th (backward_chaining num F R q) /\
+               exists nu', eval_atom nu' (apply_answer th q) = eval_atom nu q.
+Proof. exact complete_shallow_unfiltered. Qed.
+Print Assumptions C18_complete_shallow_unfiltered.
+
+(* For safe rule sets every answer is ground: the goal with resolve_term applied is a fact. *)
 Theorem C18_answers_ground :
-  forall (F : list fact) (R : list rule) (q : atom) (th : subst),
-    safe_rules R = true -> In th (backward_chaining F R q) -> ground_atom (apply_answer th q) = true.
+  forall (num : N -> Z) (F : list fact) (R : list rule) (q : atom) (th : subst),
+    safe_rules R = true -> In th (backward_chaining num F R q) -> ground_atom (apply_answer th q) = true.
 Proof. exact answers_ground. Qed.
 Print Assumptions C18_answers_ground.
 
-(* The property as stated, for safe rule sets without filters, on the observable `answers` (the list of goals
-   with resolve_term applied, one per returned binding map): every answer is a fact of the least model that
-   matches the goal, and every fact of the least model that matches the goal and has a derivation of height
-   <= MAX_DEPTH is an answer. *)
+(* The property as stated, for safe rule sets (with filters), on the observable `answers` (the list of goals with
+   resolve_term applied, one per returned binding map): every answer is a fact of the least model that matches
+   the goal, and every fact of the least model that matches the goal and has a derivation of height <= MAX_DEPTH
+   is an answer. *)
 Theorem C18_exact :
   forall (num : N -> Z) (F : list fact) (R : list rule) (q : atom),
     safe_rules R = true ->
-    (known_C18 R = false ->
-     forall a, In a (answers F R q) ->
+    (forall a, In a (answers num F R q) ->
                exists f, a = fact_pattern f /\ least_model num F R f /\ matches_goal q f) /\
-    (forall f, matches_goal q f -> derivable num F R MAX_DEPTH f -> In (fact_pattern f) (answers F R q)).
+    (forall f, matches_goal q f -> derivable num F R MAX_DEPTH f -> In (fact_pattern f) (answers num F R q)).
 Proof.
   intros num F R q Hs. split.
-  - intros Hk a. now apply answers_exact_sound.
+  - intros a. now apply answers_exact_sound.
   - intros f. now apply answers_exact_complete.
 Qed.
 Print Assumptions C18_exact.
@@ -85,11 +96,11 @@ Print Assumptions C18_spec_level.
 (* resolve_term's recursion ends on every binding map the search returns (the model's fuel is not exhausted):
    the map is well-formed and resolution ends in a constant or an unbound variable. *)
 Theorem C18_resolve_total :
-  forall (F : list fact) (R : list rule) (q : atom) (th : subst),
-    In th (backward_chaining F R q) ->
+  forall (num : N -> Z) (F : list fact) (R : list rule) (q : atom) (th : subst),
+    In th (backward_chaining num F R q) ->
     wf th /\ forall t, root th (resolve_term th t).
 Proof.
-  intros F R q th H. pose proof (backward_chaining_wf F R q th H) as W.
+  intros num F R q th H. pose proof (backward_chaining_wf num F R q th H) as W.
   split; [exact W|]. intros t. now apply resolve_is_root.
 Qed.
 Print Assumptions C18_resolve_total.
@@ -112,48 +123,51 @@ Example C18_capture_witness :
   let F := [(0,10,1);(1,10,2)] in
   let R := [Rule [(Var "X", Cst 10, Var "Y")] [(Var "X", Cst 11, Var "Y")] [];
             Rule [(Var "X", Cst 10, Var "Y"); (Var "Y", Cst 11, Var "Z")] [(Var "X", Cst 11, Var "Z")] []] in
-  answers F R (Var "v1", Cst 11, Var "v0") = [(Cst 0, Cst 11, Cst 1); (Cst 1, Cst 11, Cst 2); (Cst 0, Cst 11, Cst 2)]
-  /\ answers F R (Var "X", Cst 11, Var "Y") = [(Cst 0, Cst 11, Cst 1); (Cst 1, Cst 11, Cst 2); (Cst 0, Cst 11, Cst 2)]
+  answers (fun _ => 0%Z) F R (Var "v1", Cst 11, Var "v0") = [(Cst 0, Cst 11, Cst 1); (Cst 1, Cst 11, Cst 2); (Cst 0, Cst 11, Cst 2)]
+  /\ answers (fun _ => 0%Z) F R (Var "X", Cst 11, Var "Y") = [(Cst 0, Cst 11, Cst 1); (Cst 1, Cst 11, Cst 2); (Cst 0, Cst 11, Cst 2)]
   /\ first_fresh_variable_index (Var "v1", Cst 11, Var "v0") = 2.
 Proof. vm_compute. repeat split. Qed.
 
-(* The open finding: a rule filter is never evaluated.  alice=0 bob=1 "30"=2 "12"=3 age=4 type=5 adult=6;
-   rule (?X age ?A), FILTER(?A > 17) -> (?X type adult); the goal (?X type adult) returns bob. *)
+(* regression of the repaired filter defect (8d76413).  alice=0 bob=1 "30"=2 "12"=3 age=4 type=5 adult=6;
+   rule (?X age ?A), FILTER(?A > 17) -> (?X type adult); the goal (?X type adult) returns alice only (alice and
+   bob before the repair), and (bob type adult) is indeed not in the least model. *)
 Definition w_num (c : N) : Z := if N.eqb c 2 then 30%Z else if N.eqb c 3 then 12%Z else 0%Z.
 Definition w_F : list fact := [(0,4,2); (1,4,3)].
-Definition w_R : list rule := [Rule [(Var "X", Cst 4, Var "A")] [(Var "X", Cst 5, Cst 6)] [Filter "A" CGt 17%Z]].
+Definition w_R : list rule := [Rule [(Var "X", Cst 4, Var "A")] [(Var "X", Cst 5, Cst 6)] [Filter "A" CGt (FNum 17%Z)]].
 Definition w_q : atom := (Var "X", Cst 5, Cst 6).
 
-Theorem C18_filters_refuted :
-  known_C18 w_R = true /\
-  exists th, In th (backward_chaining w_F w_R w_q) /\
-             forall nu, eval_atom nu (apply_answer th w_q) = (1, 5, 6) /\
-                        ~ least_model w_num w_F w_R (1, 5, 6).
+Theorem C18_filter_regression :
+  known_C18 w_R = true /\ safe_rules w_R = true /\
+  answers w_num w_F w_R w_q = [(Cst 0, Cst 5, Cst 6)] /\
+  ~ least_model w_num w_F w_R (1, 5, 6).
 Proof.
-  split; [reflexivity|].
-  exists [("v1", Cst 3); ("X", Cst 1); ("v0", Var "X")]. split.
-  - vm_compute. right. left. reflexivity.
-  - intros nu. split; [reflexivity|].
-    intros [h H].
-    inversion H as [h0 f Hin|h0 r c mu Hr Hc Hp Hf Eh Ef]; subst.
-    + cbn in Hin. destruct Hin as [E|[E|[]]]; discriminate.
-    + destruct Hr as [<-|[]]. destruct Hc as [<-|[]]. cbn in Ef. injection Ef as EX.
-      specialize (Hp _ (or_introl eq_refl)). cbn in Hp. rewrite EX in Hp.
-      inversion Hp as [h1 f Hin|h1 r c mu' Hr Hc Hp' Hf' Eh' Ef']; subst.
-      * cbn in Hin. destruct Hin as [E|[E|[]]]; [discriminate|]. injection E as EA.
-        cbn in Hf. unfold filter_holds in Hf. cbn in Hf. rewrite <- EA in Hf. vm_compute in Hf. discriminate.
-      * destruct Hr as [<-|[]]. destruct Hc as [<-|[]]. cbn in Ef'. discriminate.
+  split; [reflexivity|]. split; [reflexivity|]. split; [vm_compute; reflexivity|].
+  intros [h H].
+  inversion H as [h0 f Hin|h0 r c mu Hr Hc Hp Hf Eh Ef]; subst.
+  - cbn in Hin. destruct Hin as [E|[E|[]]]; discriminate.
+  - destruct Hr as [<-|[]]. destruct Hc as [<-|[]]. cbn in Ef. injection Ef as EX.
+    specialize (Hp _ (or_introl eq_refl)). cbn in Hp. rewrite EX in Hp.
+    inversion Hp as [h1 f Hin|h1 r c mu' Hr Hc Hp' Hf' Eh' Ef']; subst.
+    + cbn in Hin. destruct Hin as [E|[E|[]]]; [discriminate|]. injection E as EA.
+      cbn in Hf. unfold filter_holds in Hf. cbn in Hf. rewrite <- EA in Hf. vm_compute in Hf. discriminate.
+    + destruct Hr as [<-|[]]. destruct Hc as [<-|[]]. cbn in Ef'. discriminate.
 Qed.
-Print Assumptions C18_filters_refuted.
+Print Assumptions C18_filter_regression.
+
+(* a filter that compares two variables by identifier: (?X p ?Y), FILTER(?X != ?Y) -> (?X q ?Y) *)
+Example C18_var_filter_example :
+  answers (fun _ => 0%Z) [(0,4,0); (0,4,1)] [Rule [(Var "X", Cst 4, Var "Y")] [(Var "X", Cst 5, Var "Y")] [Filter "X" CNe (FVar "Y")]]
+          (Var "v0", Cst 5, Var "v1") = [(Cst 0, Cst 5, Cst 1)].
+Proof. vm_compute. reflexivity. Qed.
 
 (* non-vacuity of C18_complete_shallow and C18_sound: a derived fact of height 2 *)
 Example C18_example_derivable :
   let F := [(0,10,1);(1,10,2)] in
   let R := [Rule [(Var "X", Cst 10, Var "Y")] [(Var "X", Cst 11, Var "Y")] [];
             Rule [(Var "X", Cst 10, Var "Y"); (Var "Y", Cst 11, Var "Z")] [(Var "X", Cst 11, Var "Z")] []] in
-  known_C18 R = false /\ derivable (fun _ => 0%Z) F R MAX_DEPTH (0, 11, 2).
+  known_C18 R = false /\ safe_rules R = true /\ derivable (fun _ => 0%Z) F R MAX_DEPTH (0, 11, 2).
 Proof.
-  split; [reflexivity|].
+  split; [reflexivity|]. split; [reflexivity|].
   apply (d_rule _ _ _ 9 (Rule [(Var "X", Cst 10, Var "Y"); (Var "Y", Cst 11, Var "Z")] [(Var "X", Cst 11, Var "Z")] [])
                 (Var "X", Cst 11, Var "Z")
                 (fun x => if String.eqb x "X" then 0 else if String.eqb x "Y" then 1 else 2)).
